@@ -157,7 +157,7 @@ def spec_source(spec):
     body = '_body([%s], %s, %s)' % (', '.join('(%r, %s)' % (n, n) for n in names), spec['varargs'] or '()', spec['varkw'] or '{}')
     if spec['name'] == '<lambda>':
         return 'lambda %s: %s' % (', '.join(parts), body), True
-    doc = '    %r\n' % spec['doc'] if spec.get('doc') else ''
+    doc = '    %r\n' % spec['doc'] if spec.get('doc') is not None else ''
     return 'def %s(%s)%s:\n%s    return %s\n' % (spec['name'], ', '.join(parts), ret, doc, body), False
 
 
@@ -185,6 +185,13 @@ def spec_field(spec):
                      ','.join('%s=%d' % (k, 2000 + j) for j, k in enumerate(spec['kwonly']) if k in spec['kwdefaults']),
                      spec['varkw'] or '-'])
 
+
+# docstrings: None, one line, and texts that are NOT in inspect.cleandoc form (indented continuation lines, leading /
+# trailing blank lines, tabs, whitespace only, empty) - __doc__ must come through character for character
+DOCS = [None, None, 'doc string', 'multi\nline "doc"',
+        'Summary line.\n\n        Indented with the code,\n            deeper here.\n        ',
+        '\n    Leading blank line.\n    Body.\n    ', 'Trailing blank lines.\n\n\n', '\tTab first.\n\tTab again.\n\t\tTwo tabs.',
+        '   leading spaces on the first line', '    \n   ', ' ', '', 'line\r\n    crlf indented\r\n']
 
 NAMES = ['a', 'b', 'c', 'd', 'e', 'f', 'g', 'h', 'x', 'y', 'self_', 'max', 'print', 'func', 'args_', 'kwargs_', 'wrapped', 'f_']
 
@@ -220,7 +227,7 @@ def gen_spec(rng, rich=True):
             ann['return'] = rng.choice(['R', 'Optional[int]'])
     return {'name': rng.choice(['fn', 'handler', 'f', 'process_request', 'x', 'a']), 'posonly': posonly, 'pos': pos,
             'ndefaults': nd, 'varargs': varargs, 'kwonly': kwonly, 'kwdefaults': kwdefaults, 'varkw': varkw,
-            'ann': ann, 'doc': rng.choice([None, 'doc string', 'multi\nline "doc"']), 'mkind': mkind,
+            'ann': ann, 'doc': rng.choice(DOCS), 'mkind': mkind,
             'attrs': rng.random() < 0.3}
 
 
@@ -956,6 +963,10 @@ def corpus_sig():
         {'kind': 'sig', 'spec': F(name='_func_'), 'wrapper': 'time-summary', 'calls': [[[], []]]},
         {'kind': 'sig', 'spec': F(name='k4', varkw='_call_'), 'wrapper': 'count-tuple', 'calls': [[[], [['z', 1]]]]},
         {'kind': 'sig', 'spec': F(name='<lambda>', pos=['x']), 'wrapper': 'time-summary', 'calls': [[[4], []], [[], [['x', 4]]]]},
+        {'kind': 'sig', 'spec': F(name='documented', pos=['x'], doc='Summary line.\n\n        Indented with the code,\n            deeper here.\n        '),
+         'wrapper': 'time-summary', 'calls': [[[1], []]]},
+        {'kind': 'sig', 'spec': F(name='blank_doc', pos=['x'], doc='    \n   '), 'wrapper': 'count-default', 'calls': [[[1], []]]},
+        {'kind': 'sig', 'spec': F(name='tab_doc', doc='\n\tTabbed.\n\t'), 'wrapper': 'inprogress', 'calls': [[[], []]]},
         # everything at once
         {'kind': 'sig', 'spec': F(posonly=['a', 'b'], pos=['c', 'd'], nd=2, varargs='args', kwonly=['k', 'l'], kwd=['l'], varkw='kw',
                                   ann={'a': 'int', 'return': 'R', 'args': 'x', 'kw': 'not python ('}, doc='doc', attrs=True),
